@@ -605,8 +605,19 @@ var c17Strs = []string{"", "x", "hello world", "a/b.txt", "/abs/path", "12", "tr
 var c17Keys = []string{"k", "k2", "a", "b", "zz", "file.txt", "0", "K", "é"}
 var c17BadKeys = []string{"", ".", "..", "a/b", "/", "nul\x00l", strings.Repeat("k", 255), strings.Repeat("k", 256)}
 
+// an integer of random magnitude with a small fractional part (or .0)
+func c17NearInt(r *hx.Rng) string {
+	m := strconv.FormatUint((r.Next()>>1)>>uint(r.Intn(62)), 10)
+	if r.Bool() {
+		m = "-" + m
+	}
+	return m + hx.Pick(r, []string{".0", ".5", ".25", ".75", ".000001", ".00", "e0", ".5e0"})
+}
+
 func c17NumLit(r *hx.Rng) string {
-	switch r.Intn(6) {
+	switch r.Intn(7) {
+	case 6:
+		return c17NearInt(r)
 	case 0:
 		return hx.Pick(r, c17NearInts)
 	case 1:
@@ -694,6 +705,9 @@ func (g *c17Gener) gen(t *c17Ty, depth int) jval {
 			return jval{K: 's', S: hx.Pick(r, c17Strs)}
 		case 'i':
 			if g.hit(150) {
+				if r.Bool() {
+					return jval{K: '#', Num: c17NearInt(r)}
+				}
 				return jval{K: '#', Num: hx.Pick(r, c17NearInts)}
 			}
 			if g.hit(30) {
@@ -1061,7 +1075,9 @@ func c17Kernel(args []string) {
 	fmt.Fprintf(w, "Definition acases : list (N * ty * ty * bool) := [\n%s].\n", strings.Join(as, ";\n"))
 	fmt.Fprintln(w, `Definition zs_eqb (a b : list Z) : bool := (length a =? length b)%nat && forallb (fun p => (fst p =? snd p)%Z) (combine a b).
 Definition cbad := List.filter (fun c => match c with (_, t, v, fl, o) =>
-  negb (zs_eqb (fst (observe t v)) fl && json_eqb (snd (observe t v)) o) end) ccases.
+  if (nth 2 fl 0 =? 1)%Z && (nth 2 (fst (observe t v)) 0 =? 1)%Z
+  then negb (zs_eqb (firstn 4 (fst (observe t v))) (firstn 4 fl))
+  else negb (zs_eqb (fst (observe t v)) fl && json_eqb (snd (observe t v)) o) end) ccases.
 Definition abad := List.filter (fun c => match c with (_, t, o, r) => negb (Bool.eqb (assignable t o) r) end) acases.
 Definition M := Eval vm_compute in (List.app (map (fun c => fst (fst (fst (fst c)))) cbad) (map (fun c => fst (fst (fst c))) abad)).
 Print M.`)
